@@ -58,6 +58,19 @@ FLOAT_STUB = ("lexical_core::parse::<f32|f64> -> contract stub: returns the harn
 
 INTS = ["u8", "i8", "u16", "i16", "u32", "i32", "u64", "i64", "usize", "isize"]
 
+# ---------------------------------------------------------------------------- C03
+for L, tier, cap in ((4, "q", 300), (6, "q", 300), (12, "q", 600)):
+    H(f"c03_{tier}_matcher_{L}", "C03", f"c03::matcher::<{L}, _>",
+      f"mnemonic_match / mnemonic_compare == independent reference (split trailing digits, "
+      f"short or long form ignoring case, absent suffix == 1) for every SCPI-shaped mnemonic of 1..{L} bytes and every "
+      f"candidate of 0..{L} bytes over [A-Za-z0-9_]", f"mnemonic <= {L} bytes x candidate <= {L} bytes, both lengths "
+      f"symbolic", cap_s=cap, mem_gb=4, unwind=L + 2, sample=(L == 4))
+for L in (6,):
+    H(f"c03_q_header_{L}", "C03", f"c03::header::<{L}, _>",
+      "Token::match_program_header == the reference for ProgramMnemonic / CharacterProgramData tokens and false for "
+      "every other token kind", f"mnemonic <= {L} x token text <= {L} bytes", cap_s=400, mem_gb=4, unwind=L + 2,
+      also=["C02"])
+
 # ---------------------------------------------------------------------------- C07
 def F(t):
     return "f32" if t in ("u8", "i8", "u16", "i16") else "f64"
@@ -146,6 +159,21 @@ H("c16_q_tst_rst_wai", "C16", "c16::tst_rst_wai", "*TST? answers 0 or the self-t
 H("c16_q_esr", "C16", "c16::esr", "*ESR? returns the ESR and clears exactly it", "all register states", cap_s=300,
   mem_gb=3, unwind=12, also=["C13"])
 
+# ---------------------------------------------------------------------------- C17
+for n in (2, 3, 4, 7):
+    H(f"c17_q_keywords_{n}", "C17", f"c17::keywords::<{n}, _>", f"NumericValue::<i32>::try_from(character data of {n} "
+      f"bytes): MAX|MAXIMUM, MIN|MINIMUM, DEF|DEFAULT, UP, DOWN in any case -> the keyword, everything else converts as "
+      f"i32 (-104)", f"all 2^{8*n} strings of {n} bytes", cap_s=200, mem_gb=2, unwind=10, sample=(n == 3))
+H("c17_q_underlying", "C17", "c17::underlying", "non-keyword elements convert as the underlying type: #H.. == "
+  "i32::try_from, string -> -104", "all u64 non-decimal values", cap_s=200, mem_gb=2, unwind=10)
+for t in ("i32", "u8", "f32", "f64"):
+    H(f"c17_q_resolve_{t}", "C17", f"c17::resolve_{t}", f"NumericBuilder::<{t}>::finish / finish_with for an arbitrary "
+      f"(Value|MAX|MIN|DEF|UP|DOWN, value, min, max, optional default): documented outcome, Ok(x) => min <= x <= max",
+      f"all {t} values for value/min/max/default (floats incl. NaN, infinities), min > max allowed", cap_s=200, mem_gb=2,
+      sample=(t == "f32"))
+H("c17_q_resolve_time", "C17", "c17::resolve_time", "NumericValue<uom Time(f32)>: Value/MAX/MIN against quantity bounds",
+  "all f32 values", cap_s=200, mem_gb=2)
+
 PROPS = {
     "C07": {
         "bounds": {"quick": "fallback kernel: every non-NaN float; fast path: sign + <= 4 digits; non-decimal: any u64; "
@@ -222,6 +250,35 @@ PROPS["C16"] = {
                   "and decoded response are compared with a bit-by-bit transcription of the 488.2 status model "
                   "including frame conditions (what must not change).",
     "level_note": "Trusted: Kani/CBMC/CaDiCaL; the status-byte specification in checks/c16.rs; the next_data contract stub.",
+}
+
+PROPS["C03"] = {
+    "bounds": "defined mnemonic 1..12 bytes of shape [A-Z]+[a-z]*[0-9]*, candidate 0..12 bytes over [A-Za-z0-9_]; the "
+              "full space the property names",
+    "outside": "numeric suffixes spelled with a leading zero on either side (the property does not say whether suffixes "
+               "compare as numbers or as text); mnemonics not of SCPI shape; candidates with other bytes (the lexer "
+               "never produces them, C04)",
+    "assumptions": [],
+    "level_text": "Bounded model checking, differential: the real mnemonic_match / mnemonic_compare / "
+                  "Token::match_program_header against an independently written reference matcher, with the mnemonic, the "
+                  "candidate and both lengths symbolic - one SAT query covers all ~10^40 (mnemonic, candidate) pairs up "
+                  "to 12 x 12 bytes, which is exactly the quantifier of the property.",
+    "level_note": "Trusted: Kani/CBMC/CaDiCaL; the reference matcher in oracles/mnemonic.rs (unit-tested on the "
+                  "repository's own tokenizer test inputs at setup).",
+}
+
+PROPS["C17"] = {
+    "bounds": "character data of 2,3,4,7 bytes (all keyword lengths: UP, MAX/MIN/DEF, DOWN, MAXIMUM/MINIMUM/DEFAULT) with "
+              "every byte value; builder over all values of i32, u8, f32, f64 and uom Time(f32)",
+    "outside": "character data of other lengths (no keyword has them; they convert as the underlying type, decided in "
+               "C07/C08); underlying types other than the five instantiated",
+    "assumptions": [],
+    "level_text": "Bounded model checking: the keyword recogniser is decided over all byte strings of each keyword length "
+                  "against a reference table, and NumericBuilder::finish over all (variant, value, min, max, default) "
+                  "tuples of each instantiated numeric type including NaN and infinities - the boundary and min==max "
+                  "cases are points of that space.",
+    "level_note": "Trusted: Kani/CBMC/CaDiCaL (incl. CBMC's IEEE-754 comparison semantics); the keyword table in "
+                  "checks/c17.rs.",
 }
 
 # properties whose check is still being built (kept current as the work proceeds)
